@@ -34,15 +34,14 @@ import (
 	"google.golang.org/grpc/metadata"
 )
 
-type routeInfo struct{ pull, endpoint, push string }
+type routeInfo struct{ pull, endpoint, push, url string }
 
+// every push route has its own target URL (two hosts), all served by one in-memory RoundTripper
 var routes = map[string]routeInfo{
-	"std":   {"/p", "/e", "/d"},
-	"small": {"/p8", "/e8", "/d8"},
-	"fwd":   {"/pf", "/ef", "/df"},
+	"std":   {"/p", "/e", "/d", "http://192.0.2.2/hook"},
+	"small": {"/p8", "/e8", "/d8", "http://192.0.2.2/hook8"},
+	"fwd":   {"/pf", "/ef", "/df", "http://192.0.2.3/hookf"},
 }
-
-const pushURL = "http://192.0.2.2/hook"
 const caseHeader = "X-Case" // push only: the one carrier a push target has for telling deliveries apart
 
 func dsl(slot int, backend string) string {
@@ -61,9 +60,9 @@ defaults {
 /p8 { %[5]s max_body 8 pull { path /e8 } }
 /pf { %[5]s %[6]s pull { path /ef } }
 /d  { %[5]s deliver "%[7]s" { } }
-/d8 { %[5]s max_body 8 deliver "%[7]s" { } }
-/df { %[5]s %[6]s deliver "%[7]s" { } }
-`, base, base+1, base+2, base+3, q, fwd, pushURL)
+/d8 { %[5]s max_body 8 deliver "%[8]s" { } }
+/df { %[5]s %[6]s deliver "%[9]s" { } }
+`, base, base+1, base+2, base+3, q, fwd, routes["std"].url, routes["small"].url, routes["fwd"].url)
 }
 
 func grpcAddr(slot int) string { return fmt.Sprintf("127.0.0.1:%d", 20000+slot*10+2) }
@@ -89,6 +88,8 @@ func (c *vclock) Advance(d time.Duration) { c.ns.Add(int64(d)) }
 type failure struct {
 	Key, Msg string
 	Case     int
+	With     []int // other cases of the batch the failure depends on (history-dependent failures)
+	Weak     bool  // history-dependent, but the other message is not in this batch (earlier batch of the same process)
 }
 
 type batchResult struct {
@@ -122,21 +123,30 @@ type run struct {
 	clk     *vclock
 	store   queue.Store
 	fwdSeen atomic.Int64
-	failed  map[string]bool
+	failed  map[string]int
 }
 
 func (x *run) infra(format string, a ...any) {
 	x.res.infra = append(x.res.infra, fmt.Sprintf("[%s %s slot %d] ", x.backend, x.flow, x.slot)+fmt.Sprintf(format, a...))
 }
 
-func (x *run) fail(i int, key, msg string) {
+func (x *run) fail(i int, key, msg string, with ...int) { x.failW(i, key, msg, false, with...) }
+
+func (x *run) failW(i int, key, msg string, weak bool, with ...int) {
 	c := x.cases[i]
 	key = fmt.Sprintf("%s:%s:%s:%s", key, c.In, x.backend, x.flow)
-	if x.failed[key] { // one report per class and batch
+	for _, j := range with {
+		msg += "\nafter " + describe(x.cases[j], x.bodies[j])
+	}
+	f := failure{Key: key, Msg: msg + "\n" + describe(c, x.bodies[i]), Case: i, With: with, Weak: weak}
+	if at, seen := x.failed[key]; seen { // one report per class and batch; a self-contained one replaces a weak one
+		if x.res.fails[at].Weak && !weak {
+			x.res.fails[at] = f
+		}
 		return
 	}
-	x.failed[key] = true
-	x.res.fails = append(x.res.fails, failure{Key: key, Msg: msg + "\n" + describe(c, x.bodies[i]), Case: i})
+	x.failed[key] = len(x.res.fails)
+	x.res.fails = append(x.res.fails, f)
 }
 
 func describe(c mcase, body []byte) string {
@@ -145,7 +155,7 @@ func describe(c mcase, body []byte) string {
 
 func runBatch(slot int, backend, flow string, cases []mcase) (res *batchResult) {
 	res = &batchResult{via: map[string]int64{}, distinct: map[string]struct{}{}}
-	x := &run{slot: slot, backend: backend, flow: flow, cases: cases, res: res, failed: map[string]bool{},
+	x := &run{slot: slot, backend: backend, flow: flow, cases: cases, res: res, failed: map[string]int{},
 		dir: filepath.Join(runner.Scratch(), fmt.Sprintf("slot%d", slot))}
 	defer func() {
 		if p := recover(); p != nil {
@@ -466,8 +476,67 @@ func (x *run) check(i int, via, phase string, payload []byte, payloadErr string,
 		x.fail(i, "payload:"+via, d+" ("+where+")")
 	}
 	for _, f := range compareHeaders(c, x.lines[i], headers, exact) {
-		x.fail(i, f.Key+":"+via, f.Msg+" ("+where+")")
+		if len(f.Foreign) == 0 {
+			x.fail(i, f.Key+":"+via, f.Msg+" ("+where+")")
+			continue
+		}
+		// a header of another message: the failure needs that other message delivered before; find it in the batch
+		donors := x.donors(i, f.Foreign, headers)
+		if donors == nil {
+			f.Msg += "; no other message of this batch has such a header: it comes from an earlier batch of the same process"
+		}
+		x.failW(i, f.Key+":"+via, f.Msg+" ("+where+")", donors == nil, donors...)
 	}
+}
+
+// donors finds cases of this batch whose stored headers contain one of the foreign headers with the observed value
+// (per name the best of: same route, earlier position); nil when no name has a donor here.
+func (x *run) donors(i int, names []string, got map[string][]string) []int {
+	var out []int
+	for _, n := range names {
+		best := -1
+		for j := range x.cases {
+			if j == i || !x.acc[j] {
+				continue
+			}
+			v, ok := refHeaders(x.cases[j], x.lines[j])[n]
+			if x.cases[j].In == "publish" {
+				for k, pv := range refHeaders(x.cases[j], x.lines[j]) {
+					if canon(k) == n {
+						v, ok = pv, true
+					}
+				}
+			}
+			if !ok || len(got[n]) != 1 || got[n][0] != v {
+				continue
+			}
+			score := func(j int) int {
+				s := 0
+				if x.cases[j].Route == x.cases[i].Route {
+					s += 2
+				}
+				if j < i {
+					s++
+				}
+				return s
+			}
+			if best < 0 || score(j) > score(best) {
+				best = j
+			}
+		}
+		if best < 0 {
+			continue
+		}
+		dup := false
+		for _, d := range out {
+			dup = dup || d == best
+		}
+		if !dup {
+			out = append(out, best)
+		}
+	}
+	sort.Ints(out)
+	return out
 }
 
 func multi(m map[string]string) map[string][]string {
@@ -899,8 +968,8 @@ func (x *run) pushFlow() {
 			perCase[i] = map[string]int{}
 		}
 		perCase[i][dl.phase]++
-		if dl.method != http.MethodPost || dl.url != pushURL {
-			x.infra("push: unexpected request line %s %s", dl.method, dl.url)
+		if dl.method != http.MethodPost || dl.url != routes[x.cases[i].Route].url {
+			x.infra("push: case %d of route %s delivered as %s %s", i, x.cases[i].Route, dl.method, dl.url)
 			return
 		}
 		x.check(i, "push", dl.phase, dl.body, "", map[string][]string(dl.header), false)
